@@ -7,12 +7,22 @@ VARIABLE out
 
 GenConfigs == {c \in [policy : Policies, static : StaticLists, disc : BOOLEAN] : Accepted(c)}
 McConfigs == {c \in [policy : Policies, static : McStatic, disc : BOOLEAN] : Accepted(c)}
+McRRConfigs == {c \in McConfigs : c.policy = "roundRobin"}
 
 GInit == Init /\ out = ToJson([a |-> "init", cfg |-> cfg])
 GNext == Next /\ out' = ToJson(last')
 GSpec == GInit /\ [][GNext]_<<vars, out>>
 
-(* sequential behaviours (inputs for the replay on the real pool) *)
-GSeqNext == SeqNext /\ out' = ToJson(last')
+(* sequential behaviours (inputs for the replay on the real pool): requests one after the other,  *)
+(* some of them held between the load of the balancer and the choice while the list is replaced   *)
+(* and other requests choose; round robin balancers that have served 2^b - d selections before.   *)
+(* (Which servers had the extra selection - E - is the real balancer's business: the generator     *)
+(* takes one representative, the replay does not use it.)                                          *)
+GAge == \E b \in AgeBits, d \in AgeD :
+           LET n == Cardinality(lst[gen])
+               Es == {E \in SUBSET Ids(lst[gen]) : Cardinality(E) = K0Mod(b, d, n)}
+           IN  /\ last.a \in {"init", "rep"}        \* the balancer just created is the one with a history
+               /\ n > 0 /\ Age(b, d, CHOOSE E \in Es : TRUE)
+GSeqNext == (HeldNext \/ GAge) /\ out' = ToJson(last')
 GSeqSpec == GInit /\ [][GSeqNext]_<<vars, out>>
 =============================================================================
